@@ -53,6 +53,7 @@ SPFN(0) SPFN(1) SPFN(2) SPFN(3) SPFN(4) SPFN(5) SPFN(6) SPFN(7)
 
 static const int CTX8[8] = { 0, 1, 2, 3, 4, 5, 6, 7 };
 static const int CTX4[4] = { 0, 1, 3, 4 };
+static const int CTXQ[3] = { 1, 6, 7 };
 static const unsigned long MODES[2] = { EXT_DEFAULT, EXT_COMPAT_SET };
 static const short HL[2] = { FORMAT_HTML, FORMAT_LATEX };
 
@@ -66,10 +67,12 @@ int main(int argc, char **argv) {
 	SP[4] = (space){ .a = A_lines, .minlen = 4, .maxlen = 4, .fmts = HL, .nfmt = 2, .exts = MODES, .next = 1 };
 	SP[5] = (space){ .a = A_linecore, .minlen = 5, .maxlen = 5, .fmts = HL, .nfmt = 1, .exts = MODES, .next = 2 };
 	SP[6] = (space){ .a = A_inline, .minlen = 3, .maxlen = 3, .pre = A_pre, .post = A_post, .ctxs = CTX4, .nctx = 4, .fmts = TEXT_FORMATS, .nfmt = 7, .exts = MODES, .next = 2 };
+	SP[7] = (space){ .a = k_alpha_sub(A_inline, 0, 60), .minlen = 3, .maxlen = 3, .pre = A_pre, .post = A_post, .ctxs = CTXQ, .nctx = 3, .fmts = TEXT_FORMATS, .nfmt = 7, .exts = MODES, .next = 1 };
 	k_level L[] = {
 		{ "q_lines3", space_count(&SP[0]), run0, desc0, "qt", "all line sequences len<=3 over the full line alphabet x 7 writers x {MMD,compat}" },
 		{ "q_inline2", space_count(&SP[1]), run1, desc1, "qt", "inline sequences len<=2 x 8 contexts x 7 writers x {MMD,compat}" },
 		{ "q_macro2", space_count(&SP[2]), run2, desc2, "qt", "macro fragments alone and in ordered pairs x 7 writers x 8 extension sets" },
+		{ "q_inline3core", space_count(&SP[7]), run7, desc7, "qt", "inline core (60 fragments) len 3 in {list item, footnote, definition} x 7 writers, MMD" },
 		{ "t_lines4core", space_count(&SP[3]), run3, desc3, "t", "one-per-kind lines len 4 x 7 writers x {MMD,compat}" },
 		{ "t_inline3", space_count(&SP[6]), run6, desc6, "t", "inline sequences len 3 x 4 contexts x 7 writers x {MMD,compat}" },
 		{ "t_lines4full", space_count(&SP[4]), run4, desc4, "t", "full line alphabet len 4 x {html,latex} x MMD" },
